@@ -254,6 +254,7 @@ func yamlList(l []string) string {
 type gateCase struct {
 	NoRules             bool // the upstream's resolved configuration has no allow rule at all (zero validators)
 	ViaExtraRoute       bool // the policy is that of an EXTRA ROUTE whose parent states other entries of the same kinds
+	WithDefaults        bool // the deployment defaults state OTHER entries of the same kinds, which the upstream own lists replace
 	Addrs, Doms, Groups []string
 	Email               string
 	UserGroups          []string
@@ -300,6 +301,17 @@ func gate(r *c.Rng, auth *c.FakeAuth, dir string, g gateCase) c.Case {
 	}
 	yaml := "- service: decoy\n  default:\n    from: decoy.example.test\n    to: " + backend.HostPort() + "\n    options:\n      allowed_email_domains: [\"*\"]\n      allowed_groups: [\"*\"]\n" + svc
 	po := c.ProxyOpts{YAML: yaml, Valid: time.Hour, Grace: 0, Dir: dir}
+	if g.WithDefaults {
+		if len(g.Addrs) > 0 {
+			po.DefaultAddresses = []string{"default.only@default.test"}
+		}
+		if len(g.Doms) > 0 {
+			po.DefaultDomains = []string{"default.test"}
+		}
+		if len(g.Groups) > 0 {
+			po.DefaultGroups = []string{"defaultgroup"}
+		}
+	}
 	if g.NoRules {
 		po.AfterLoad = func(cfg *proxy.Configuration) { proxy.VerifC11ClearRules(&cfg.UpstreamConfigs, "svc") }
 	}
@@ -466,6 +478,12 @@ func genGate(r *c.Rng) gateCase {
 	switch {
 	case r.Chance(0.04):
 		g.NoRules, g.Addrs, g.Doms, g.Groups = true, nil, nil, nil
+	case r.Chance(0.25):
+		g.WithDefaults = true
+		if r.Chance(0.5) { // a user whom only the deployment DEFAULTS would admit
+			g.Email = []string{"default.only@default.test", "x@default.test", "X@DEFAULT.TEST"}[r.Intn(3)]
+			g.UserGroups = append(g.UserGroups, "defaultgroup")
+		}
 	case r.Chance(0.3):
 		g.ViaExtraRoute = true
 		if r.Chance(0.5) { // a user whom only the PARENT's entries would admit
